@@ -114,6 +114,8 @@ service {
     options { [google.api.http] { post: "/v1/{filename=files/**}:upload" body: "file" } } }
   method { name: "Download" input_type: ".verif.v1.Msg" output_type: ".verif.v1.Blob" server_streaming: true
     options { [google.api.http] { get: "/v1/{name=files/**}:download" response_body: "file" } } }
+  method { name: "Feed" input_type: ".verif.v1.Msg" output_type: ".verif.v1.Blob" server_streaming: true
+    options { [google.api.http] { get: "/v1/feed" response_body: "file" } } }
 }
 service {
   name: "Aux"
